@@ -19,8 +19,12 @@ import os
 from fractions import Fraction as F
 from typing import Any, Dict, List, Optional, Tuple
 
+import logging
+
 from harness import common as C
 from harness import pdfwriter as W
+
+logging.getLogger("pdfminer").setLevel(logging.CRITICAL)
 
 LEVEL = "proof"
 RULE = ("name cases: glyph names of every class of the AGL grammar (list names, uniXXXX groups, uXXXX..uXXXXXX, "
@@ -212,16 +216,12 @@ def be(b: bytes) -> int:
 
 def expand_tounicode(entries) -> Tuple[Dict[int, str], bool]:
     """Specification of a ToUnicode map: list of (code, text) definitions, last definition wins.
-    Second result: False when the space / no-break-space rule could matter (outside the judged domain)."""
-    m: Dict[int, str] = {}
-    judged = True
+    Second result: False when some code is defined both as space and as no-break space (pdfminer's
+    documented special rule; such maps are outside the judged domain)."""
+    defs: List[Tuple[int, str]] = []
 
     def put(code, raw):
-        nonlocal judged
-        t = utf16be_ignore(raw)
-        if t == " " and m.get(code) == " ":
-            judged = False
-        m[code] = t
+        defs.append((code, utf16be_ignore(raw)))
 
     for e in entries:
         if e[0] == "c":
@@ -240,7 +240,9 @@ def expand_tounicode(entries) -> Tuple[Dict[int, str], bool]:
                 continue
             for code, d in zip(range(be(lo), be(hi) + 1), e[3]):
                 put(code, bytes.fromhex(d))
-    return m, judged
+    spaces = {c for c, t in defs if t == " "}
+    judged = not any(t == "\u00a0" and c in spaces for c, t in defs)
+    return dict(defs), judged
 
 
 def name_of_tok(t) -> Optional[str]:
@@ -300,10 +302,9 @@ def font_spec_eval(fs: Dict[str, Any]) -> List[Tuple[Optional[str], Optional[F]]
     scale = F(fs["fm"][0]) if is_t3 else F(1, 1000)
     out: List[Tuple[Optional[str], Optional[F]]] = []
     for code in range(256):
-        judged = True
+        judged = tu_judged
         if code in tu:
             text: Optional[str] = tu[code]
-            judged = tu_judged
         else:
             if builtin is not None:
                 nm = None
